@@ -11,6 +11,7 @@
 package fam_bridge
 
 import (
+	"bytes"
 	"context"
 	"crypto/sha256"
 	"fmt"
@@ -50,7 +51,11 @@ type BlockSpec struct {
 	VerBlock uint64
 	VerApp   uint64
 	Evidence bool // a non-empty evidence hash
-	Junk     int  // bytes of an undecodable transaction (makes the part set larger)
+	ConsVar  int  // variant of the consensus parameters (changes ConsensusHash)
+	// NextPowers: voting power per world validator in the validator set of the NEXT height (0 = not in the
+	// set); nil = unchanged.  This is what makes NextValidatorsHash differ from ValidatorsHash.
+	NextPowers []int64
+	Junk       int // bytes of an undecodable transaction (makes the part set larger)
 }
 
 type Node struct {
@@ -60,8 +65,10 @@ type Node struct {
 	C       *world.Chain
 	ChainID string
 	Privs   []cmtsecp.PrivKey // by world validator index
-	ValSet  *cmttypes.ValidatorSet
-	ValIdx  []int // validator-set position -> world validator index
+	// the consensus validator set per height (scripted by the harness, see setFor): Sets[h] signs block h
+	Sets       map[int64]*cmttypes.ValidatorSet
+	Powers     map[int64][]int64 // per height: power of each world validator (0 = not in the set)
+	SetChanges int
 
 	Headers  map[int64]*cmttypes.Header
 	Commits  map[int64]*cmttypes.Commit
@@ -74,21 +81,15 @@ type Node struct {
 func NewNode(w *world.World) *Node {
 	n := &Node{W: w, C: w.L2(), ChainID: w.Cfg.ChainID,
 		Headers: map[int64]*cmttypes.Header{}, Commits: map[int64]*cmttypes.Commit{},
-		BlockIDs: map[int64]cmttypes.BlockID{}, AppHash: map[int64][]byte{}}
-	var vals []*cmttypes.Validator
+		BlockIDs: map[int64]cmttypes.BlockID{}, AppHash: map[int64][]byte{},
+		Sets: map[int64]*cmttypes.ValidatorSet{}, Powers: map[int64][]int64{}}
+	var initial []int64
 	for i, v := range w.Vals {
-		priv := cmtsecp.PrivKey(v.Priv.Bytes())
-		n.Privs = append(n.Privs, priv)
-		vals = append(vals, cmttypes.NewValidator(priv.PubKey(), w.Cfg.ValTokens[i]/1_000_000))
+		n.Privs = append(n.Privs, cmtsecp.PrivKey(v.Priv.Bytes()))
+		initial = append(initial, w.Cfg.ValTokens[i]/1_000_000)
 	}
-	n.ValSet = cmttypes.NewValidatorSet(vals)
-	for _, v := range n.ValSet.Validators {
-		for i := range w.Vals {
-			if string(n.Privs[i].PubKey().Address()) == string(v.Address) {
-				n.ValIdx = append(n.ValIdx, i)
-			}
-		}
-	}
+	n.setFor(1, initial)
+	n.setFor(2, initial)
 	// block 1 was executed by world.New without a header: give it one now (the application never
 	// looks at it; it only serves as LastBlockID / LastCommit of block 2).
 	cid := w.App.LastCommitID()
@@ -102,6 +103,38 @@ func NewNode(w *world.World) *Node {
 	return n
 }
 
+// setFor installs the validator set of a height from per-world-validator powers.
+func (n *Node) setFor(h int64, powers []int64) {
+	var vals []*cmttypes.Validator
+	for i, p := range powers {
+		if p > 0 {
+			vals = append(vals, cmttypes.NewValidator(n.Privs[i].PubKey(), p))
+		}
+	}
+	if len(vals) == 0 {
+		panic("empty validator set")
+	}
+	n.Sets[h] = cmttypes.NewValidatorSet(vals)
+	n.Powers[h] = append([]int64{}, powers...)
+}
+
+// WorldIndex maps a validator-set member to the world validator holding its key.
+func (n *Node) WorldIndex(addr []byte) int {
+	for i := range n.Privs {
+		if string(n.Privs[i].PubKey().Address()) == string(addr) {
+			return i
+		}
+	}
+	panic("unknown validator")
+}
+
+// consensusHash: the hash of a variant of the consensus parameters (0 = CometBFT's defaults).
+func consensusHash(variant int) []byte {
+	cp := cmttypes.DefaultConsensusParams()
+	cp.Block.MaxBytes += int64(variant)
+	return cp.Hash()
+}
+
 func (n *Node) header(h int64, t time.Time, bs BlockSpec, txs cmttypes.Txs, lastCommit *cmttypes.Commit) *cmttypes.Header {
 	hdr := &cmttypes.Header{
 		Version:            cmtversion.Consensus{Block: bs.VerBlock, App: bs.VerApp},
@@ -109,12 +142,12 @@ func (n *Node) header(h int64, t time.Time, bs BlockSpec, txs cmttypes.Txs, last
 		Height:             h,
 		Time:               t,
 		DataHash:           txs.Hash(),
-		ValidatorsHash:     n.ValSet.Hash(),
-		NextValidatorsHash: n.ValSet.Hash(),
-		ConsensusHash:      cmttypes.DefaultConsensusParams().Hash(),
+		ValidatorsHash:     n.Sets[h].Hash(),
+		NextValidatorsHash: n.Sets[h+1].Hash(),
+		ConsensusHash:      consensusHash(bs.ConsVar),
 		LastResultsHash:    cmttypes.NewResults(n.lastRes).Hash(),
 		EvidenceHash:       cmttypes.EvidenceList{}.Hash(),
-		ProposerAddress:    n.Privs[bs.Proposer%len(n.Privs)].PubKey().Address(),
+		ProposerAddress:    n.Sets[h].Validators[bs.Proposer%len(n.Sets[h].Validators)].Address,
 	}
 	if h > 1 {
 		hdr.LastBlockID = n.BlockIDs[h-1]
@@ -144,7 +177,8 @@ func (n *Node) seal(hdr *cmttypes.Header, txs cmttypes.Txs, bs BlockSpec) {
 	}
 	bid := cmttypes.BlockID{Hash: hdr.Hash(), PartSetHeader: ps.Header()}
 	commit := &cmttypes.Commit{Height: h, Round: bs.Round, BlockID: bid}
-	for _, wi := range n.ValIdx {
+	for _, member := range n.Sets[h].Validators {
+		wi := n.WorldIndex(member.Address)
 		vs := VoteSpec{Flag: 2, DSec: 1}
 		if wi < len(bs.Votes) {
 			vs = bs.Votes[wi]
@@ -173,7 +207,7 @@ func (n *Node) seal(hdr *cmttypes.Header, txs cmttypes.Txs, bs BlockSpec) {
 			BlockIDFlag: flag, ValidatorAddress: addr, Timestamp: ts, Signature: sig})
 	}
 	// the fake node must be a correct node: CometBFT itself accepts this commit for this block
-	if err := n.ValSet.VerifyCommit(n.ChainID, bid, h, commit); err != nil {
+	if err := n.Sets[h].VerifyCommit(n.ChainID, bid, h, commit); err != nil {
 		panic(fmt.Sprintf("fake node produced an invalid commit at height %d: %v", h, err))
 	}
 	n.Headers[h] = hdr
@@ -199,11 +233,19 @@ func (n *Node) Produce(bs BlockSpec, txs [][]byte) (*abci.ResponseFinalizeBlock,
 		ctxs = append(ctxs, cmttypes.Tx(tx))
 	}
 	lastCommit := n.Commits[h-1]
+	next := n.Powers[h]
+	if bs.NextPowers != nil {
+		next = bs.NextPowers
+	}
+	n.setFor(h+1, next)
+	if !bytes.Equal(n.Sets[h+1].Hash(), n.Sets[h].Hash()) {
+		n.SetChanges++
+	}
 	hdr := n.header(h, t, bs, ctxs, lastCommit)
 	// votes of the previous commit, as CometBFT would hand them to the application
 	var votes []abci.VoteInfo
 	for i, cs := range lastCommit.Signatures {
-		v := n.ValSet.Validators[i]
+		v := n.Sets[h-1].Validators[i]
 		votes = append(votes, abci.VoteInfo{
 			Validator:   abci.Validator{Address: v.Address, Power: v.VotingPower},
 			BlockIdFlag: cmtproto.BlockIDFlag(cs.BlockIDFlag),
